@@ -314,6 +314,9 @@ func (self *Analyzer) CheckAny(typ ast.Type) bool {
 type TypeCheckOptions struct {
 	AllowFunctionTypes          bool
 	IgnoreFnParamNameMismatches bool
+	// Set where the checked value is validated against the expected type at runtime (`let x: T = ..`, `.. as T`):
+	// only there may an `any` (also inside of an option, list, ...) stand in for a concrete type.
+	GotAnyIsRuntimeChecked bool
 }
 
 func (self *Analyzer) TypeCheck(got ast.Type, expected ast.Type, options TypeCheckOptions) *CompatibilityError {
@@ -327,8 +330,20 @@ func (self *Analyzer) TypeCheck(got ast.Type, expected ast.Type, options TypeChe
 	case ast.UnknownTypeKind, ast.NeverTypeKind:
 		return nil
 	case ast.AnyTypeKind:
-		// NOTE: this is OK since the `any` type is handled elsewhere
-		return nil
+		// The `any` type is validated at runtime by `let` statements and casts.
+		// Anywhere else, nothing would stop a non-conforming value (e.g. a `?any` given where a `?int` is expected).
+		if options.GotAnyIsRuntimeChecked {
+			return nil
+		}
+		return newCompatibilityErr(
+			diagnostic.Diagnostic{
+				Level:   diagnostic.DiagnosticLevelError,
+				Message: fmt.Sprintf("Implicit use of 'any' type: expected '%s', got 'any'", expected),
+				Notes:   []string{"Consider casting this expression like this: `.. as type`"},
+				Span:    got.Span(),
+			},
+			nil,
+		)
 	case ast.NullTypeKind:
 		err, _ := self.checkTypeKindEquality(got, expected)
 		return err
@@ -502,6 +517,10 @@ func (self *Analyzer) TypeCheck(got ast.Type, expected ast.Type, options TypeChe
 			expectedFnParams := expectedFn.Params.(ast.NormalFunctionTypeParamKindIdentifier)
 			gotFnParams := gotFn.Params.(ast.NormalFunctionTypeParamKindIdentifier)
 
+			// arguments are checked where the function is called, an `any` parameter accepts what the other side declares
+			paramOptions := options
+			paramOptions.GotAnyIsRuntimeChecked = true
+
 			if len(expectedFnParams.Params) != len(gotFnParams.Params) {
 				s := ""
 				if len(expectedFnParams.Params) != 1 {
@@ -556,7 +575,7 @@ func (self *Analyzer) TypeCheck(got ast.Type, expected ast.Type, options TypeChe
 				}
 
 				if foundParam == nil {
-					paramTypeErr := self.TypeCheck(expectedParam.Type, gotFnParams.Params[expectedIdx].Type, options)
+					paramTypeErr := self.TypeCheck(expectedParam.Type, gotFnParams.Params[expectedIdx].Type, paramOptions)
 
 					// If the type is the same but only the name differs, allow this (if the option enables it).
 					if options.IgnoreFnParamNameMismatches && paramTypeErr == nil {
@@ -580,7 +599,7 @@ func (self *Analyzer) TypeCheck(got ast.Type, expected ast.Type, options TypeChe
 				}
 
 				// check type equality of the param type
-				if err := self.TypeCheck(foundParam.Type, expectedParam.Type, options); err != nil {
+				if err := self.TypeCheck(foundParam.Type, expectedParam.Type, paramOptions); err != nil {
 					return err
 				}
 			}
